@@ -28,8 +28,25 @@ package main
 //   One table row: the RFC 4035 §5.3.2 owner reconstruction, which is the
 //   identity for a literal wildcard owner.
 //
-// Not decided: that the decrement is exactly one and that the "*" test looks
-// at the LEFTMOST label only (value level).
+// Strengthened (red wave 5, C01-w5g1c1): the test that SELECTS the discount
+// compares the WHOLE leading label with the one-octet label "*" (RFC 4592
+// §2.1.1: only the label that is exactly "*" is a wildcard label; "*foo" is an
+// ordinary label).  Accepted spellings: equality with a constant string
+// ("*" for a label, e.g. string(l) == "*"), bytes.Equal / strings.EqualFold /
+// Compare with a constant "*", a prefix test whose constant begins with "*."
+// (presentation-format name: the first label ends right after the "*"), or the
+// first-octet test x[0] == '*' TOGETHER WITH a length test of the same x
+// (len(x) == 1, != 1, < 2, >= 2, > 1, <= 1) — or x[1] == '.' for a name
+// string — on the same dominator chain, in the same function or, when x is a
+// helper's parameter, at the helper's call site.  A first-octet-only test or a
+// prefix/contains test against a bare "*" discounts the leading label of
+// "*foo.zone." as well: a wildcard RRset + RRSIG replayed over such a name is
+// then no longer recognised as an expansion and is accepted without the
+// RFC 4035 §5.3.4 next-closer denial.
+//
+// Not decided: that the decrement is exactly one, that the "*" test looks at
+// the LEFTMOST label only, and the polarity of the companion length test
+// (value level).
 
 import (
 	"fmt"
@@ -54,7 +71,7 @@ func init() {
 		pd.Run = func(c *Ctx) { orig(c); extra(c) }
 		pd.Explanation += " " + explain
 	}
-	wrap("C01", c01R20Run, "R20 (added): every test that classifies an RRset as wildcard-expanded by comparing RRSIG.Labels with the owner's label count discounts the owner's own leading \"*\" label (RFC 4034 §3.1.3), so the RRset stored at a wildcard owner and asked for literally is not held to a next-closer denial that cannot exist.")
+	wrap("C01", c01R20Run, "R20 (added): every test that classifies an RRset as wildcard-expanded by comparing RRSIG.Labels with the owner's label count discounts the owner's own leading \"*\" label (RFC 4034 §3.1.3), so the RRset stored at a wildcard owner and asked for literally is not held to a next-closer denial that cannot exist; the test that selects the discount compares the WHOLE leading label with \"*\" (equality, or first octet together with a one-octet length test, or a \"*.\" prefix of the presentation name), never a first-octet / bare \"*\" prefix test (RFC 4592 §2.1.1; strengthened in red wave 5).")
 }
 
 // c01R20Exempt: expansion-shaped comparisons that need no discount.
@@ -239,6 +256,11 @@ func c01R20MentionsStar(v ssa.Value, depth int, seen map[ssa.Value]bool, seenFn 
 		return false
 	}
 	seen[v] = true
+	if _, isConst := v.(*ssa.Const); !isConst {
+		if _, _, ok := c01R20StarConst(v); ok { // []byte{'*'}, []byte("*"), string(…)
+			return true
+		}
+	}
 	switch x := v.(type) {
 	case *ssa.Const:
 		if x.Value == nil {
@@ -356,11 +378,12 @@ type c01R20Site struct {
 	labels   string
 	adjusted bool
 	why      string
+	tests    []c01R20Test
 }
 
 func c01R20Run(c *Ctx) {
 	rule := c01R20
-	c.Doc(rule, "every wildcard-expansion test (RRSIG.Labels compared with the owner's label count) discounts the owner's own leading \"*\" label, RFC 4034 §3.1.3")
+	c.Doc(rule, "every wildcard-expansion test (RRSIG.Labels compared with the owner's label count) discounts the owner's own leading \"*\" label, RFC 4034 §3.1.3, and the discount is selected by a comparison of the whole leading label with \"*\"")
 
 	byTop := map[string][]*c01R20Site{}
 	tops := map[string]*ssa.Function{}
@@ -411,6 +434,7 @@ func c01R20Run(c *Ctx) {
 					if l.kind == "dec" && c01R20StarSelected(l.via) {
 						s.adjusted = true
 						s.why = "the count has a decremented alternative selected by a test of the \"*\" label"
+						s.tests = append(s.tests, c01R20SelectingTests(l.via)...)
 					}
 				}
 				top := TopLevel(fn)
@@ -441,6 +465,7 @@ func c01R20Run(c *Ctx) {
 			}
 			if s.adjusted {
 				c.ok(rule, key, s.cmp.Pos(), s.why)
+				c01R20JudgeTests(c, k, i, len(sites), s)
 				continue
 			}
 			covered := false
@@ -462,4 +487,353 @@ func c01R20Run(c *Ctx) {
 		}
 	}
 	c.Floor(rule, 2)
+}
+
+// ---- red wave 5 (C01-w5g1c1): WHICH test selects the discount ----
+
+// c01R20Test is one test of the "*" label found in a selecting condition.
+type c01R20Test struct {
+	kind string // whole | partial | unknown
+	what string
+}
+
+func c01R20Strip(v ssa.Value) ssa.Value {
+	for i := 0; i < 8; i++ {
+		switch x := v.(type) {
+		case *ssa.Convert:
+			v = x.X
+		case *ssa.ChangeType:
+			v = x.X
+		case *ssa.MakeInterface:
+			v = x.X
+		default:
+			return v
+		}
+	}
+	return v
+}
+
+// c01R20StarConst: v is a constant that begins with the octet '*': an octet /
+// rune constant '*', a string constant "*…", a conversion of one ([]byte("*")),
+// or a slice of a local array literal whose stored elements are constants
+// ([]byte{'*'}).  octet reports the single-character byte/rune form.
+func c01R20StarConst(v ssa.Value) (val string, octet bool, ok bool) {
+	v = c01R20Strip(v)
+	switch x := v.(type) {
+	case *ssa.Const:
+		if x.Value == nil {
+			return "", false, false
+		}
+		switch x.Value.Kind() {
+		case constant.Int:
+			n, isInt := constant.Int64Val(x.Value)
+			if !isInt || n != '*' {
+				return "", false, false
+			}
+			b, isB := x.Type().Underlying().(*types.Basic)
+			if isB && (b.Kind() == types.Byte || b.Kind() == types.Uint8 || b.Kind() == types.Rune || b.Kind() == types.Int32 || b.Kind() == types.UntypedRune) {
+				return "*", true, true
+			}
+		case constant.String:
+			sv := constant.StringVal(x.Value)
+			if strings.HasPrefix(sv, "*") {
+				return sv, false, true
+			}
+		}
+	case *ssa.Slice:
+		a, isA := x.X.(*ssa.Alloc)
+		if !isA || x.Low != nil || x.High != nil || a.Referrers() == nil {
+			return "", false, false
+		}
+		arr, isArr := deref(a.Type()).Underlying().(*types.Array)
+		if !isArr || arr.Len() < 1 || arr.Len() > 64 {
+			return "", false, false
+		}
+		buf := make([]byte, arr.Len())
+		set := 0
+		for _, r := range *a.Referrers() {
+			ia, isIA := r.(*ssa.IndexAddr)
+			if !isIA {
+				continue
+			}
+			ic, isC := ia.Index.(*ssa.Const)
+			if !isC || ic.Value == nil || ia.Referrers() == nil {
+				return "", false, false
+			}
+			i, _ := constant.Int64Val(ic.Value)
+			for _, rr := range *ia.Referrers() {
+				st, isSt := rr.(*ssa.Store)
+				if !isSt || st.Addr != ia {
+					return "", false, false
+				}
+				sc, isSC := st.Val.(*ssa.Const)
+				if !isSC || sc.Value == nil || sc.Value.Kind() != constant.Int || i < 0 || i >= int64(len(buf)) {
+					return "", false, false
+				}
+				n, _ := constant.Int64Val(sc.Value)
+				buf[i] = byte(n)
+				set++
+			}
+		}
+		if set == len(buf) && buf[0] == '*' {
+			return string(buf), false, true
+		}
+	}
+	return "", false, false
+}
+
+// c01R20ElemAt: v reads x[i] (slice, array or string); returns x and i.
+func c01R20ElemAt(v ssa.Value) (base, idx ssa.Value, ok bool) {
+	v = c01R20Strip(v)
+	switch x := v.(type) {
+	case *ssa.UnOp:
+		if x.Op == token.MUL {
+			if ia, isIA := x.X.(*ssa.IndexAddr); isIA {
+				return ia.X, ia.Index, true
+			}
+		}
+	case *ssa.Index:
+		return x.X, x.Index, true
+	case *ssa.Lookup:
+		if b, isB := x.X.Type().Underlying().(*types.Basic); isB && b.Info()&types.IsString != 0 {
+			return x.X, x.Index, true
+		}
+	}
+	return nil, nil, false
+}
+
+func c01R20BlocksChained(a, b *ssa.BasicBlock) bool {
+	return a != nil && b != nil && a.Parent() == b.Parent() && (a == b || a.Dominates(b) || b.Dominates(a))
+}
+
+// c01R20HasLengthCompanion: fn holds, on the dominator chain of block at, a
+// test that fixes the length of x to one octet — len(x) ==/!= 1, </>= 2,
+// >/<= 1 (x has at least one octet where x[0] is read) — or, for a name
+// string, x[1] ==/!= '.'.  x is matched by description (go/ssa has no CSE).
+func c01R20HasLengthCompanion(fn *ssa.Function, at *ssa.BasicBlock, x ssa.Value) bool {
+	if fn == nil || x == nil {
+		return false
+	}
+	want := Desc(x).String()
+	_, isStr := x.Type().Underlying().(*types.Basic)
+	for _, b := range fn.Blocks {
+		if !c01R20BlocksChained(b, at) {
+			continue
+		}
+		for _, in := range b.Instrs {
+			cmp, ok := in.(*ssa.BinOp)
+			if !ok {
+				continue
+			}
+			op := cmp.Op
+			l, r := cmp.X, cmp.Y
+			if _, lc := c01R20Strip(l).(*ssa.Const); lc {
+				l, r = r, l
+				switch op {
+				case token.LSS:
+					op = token.GTR
+				case token.GTR:
+					op = token.LSS
+				case token.LEQ:
+					op = token.GEQ
+				case token.GEQ:
+					op = token.LEQ
+				}
+			}
+			rc, ok := c01R20Strip(r).(*ssa.Const)
+			if !ok || rc.Value == nil || rc.Value.Kind() != constant.Int {
+				continue
+			}
+			n, _ := constant.Int64Val(rc.Value)
+			if call, isCall := c01R20Strip(l).(*ssa.Call); isCall {
+				bi, isB := call.Call.Value.(*ssa.Builtin)
+				if !isB || bi.Name() != "len" || len(call.Call.Args) != 1 || Desc(call.Call.Args[0]).String() != want {
+					continue
+				}
+				switch {
+				case (op == token.EQL || op == token.NEQ) && n == 1,
+					(op == token.LSS || op == token.GEQ) && n == 2,
+					(op == token.GTR || op == token.LEQ) && n == 1:
+					return true
+				}
+				continue
+			}
+			if isStr && (op == token.EQL || op == token.NEQ) && n == '.' {
+				if eb, ei, isE := c01R20ElemAt(l); isE && c01R20ConstInt(ei, 1) && Desc(eb).String() == want {
+					return true
+				}
+			}
+		}
+	}
+	return false
+}
+
+func c01R20CalleeName(call *ssa.Call) (pkg, name string) {
+	if sf := call.Call.StaticCallee(); sf != nil {
+		if sf.Pkg != nil && sf.Pkg.Pkg != nil {
+			pkg = sf.Pkg.Pkg.Path()
+		}
+		return pkg, sf.Name()
+	}
+	return "", ""
+}
+
+// c01R20CollectTests gathers the tests of the "*" label in the expression tree
+// of v (through phis, call arguments and the bodies of module predicate
+// helpers; same walk as c01R20MentionsStar) and classifies each one.
+// via is the call through which a helper body was entered (nil at the top).
+func c01R20CollectTests(v ssa.Value, depth int, seen map[ssa.Value]bool, seenFn map[*ssa.Function]bool, via *ssa.Call, out *[]c01R20Test) {
+	if v == nil || depth > 10 || seen[v] {
+		return
+	}
+	seen[v] = true
+	add := func(kind, what string) { *out = append(*out, c01R20Test{kind: kind, what: what}) }
+	switch x := v.(type) {
+	case *ssa.Const:
+		if _, _, ok := c01R20StarConst(x); ok {
+			add("unknown", "a \"*\" constant used outside an equality / prefix test")
+		}
+		return
+	case *ssa.BinOp:
+		if x.Op == token.EQL || x.Op == token.NEQ {
+			other := x.Y
+			val, octet, ok := c01R20StarConst(x.X)
+			if !ok {
+				other = x.X
+				val, octet, ok = c01R20StarConst(x.Y)
+			}
+			if ok {
+				if !octet {
+					add("whole", fmt.Sprintf("equality with the constant %q", val))
+					return
+				}
+				base, idx, isElem := c01R20ElemAt(other)
+				if !isElem || !c01R20ConstInt(idx, 0) {
+					add("unknown", "an octet compared with '*' that is not read as x[0]")
+					return
+				}
+				fn := x.Parent()
+				if c01R20HasLengthCompanion(fn, x.Block(), base) {
+					add("whole", "x[0] == '*' together with a one-octet length test of the same x")
+					return
+				}
+				if p, isP := base.(*ssa.Parameter); isP && via != nil {
+					for i, q := range fn.Params {
+						if q == p && i < len(via.Call.Args) && c01R20HasLengthCompanion(via.Parent(), via.Block(), via.Call.Args[i]) {
+							add("whole", "x[0] == '*' in a helper, the one-octet length test of the same x at its call site")
+							return
+						}
+					}
+				}
+				add("partial", fmt.Sprintf("first octet only: %s[0] == '*' in %s without a length test of the same value", Desc(base).String(), fnKey(fn)))
+				return
+			}
+		}
+	case *ssa.Call:
+		star := ""
+		hasStar := false
+		for _, a := range x.Call.Args {
+			if val, _, ok := c01R20StarConst(a); ok {
+				star, hasStar = val, true
+			}
+		}
+		if hasStar {
+			pkg, name := c01R20CalleeName(x)
+			switch {
+			case (pkg == "strings" || pkg == "bytes") && (name == "HasPrefix" || name == "CutPrefix" || name == "TrimPrefix"):
+				if strings.HasPrefix(star, "*.") {
+					add("whole", fmt.Sprintf("%s.%s with the constant %q (the first label ends right after the \"*\")", pkg, name, star))
+				} else {
+					add("partial", fmt.Sprintf("prefix only: %s.%s with the constant %q in %s", pkg, name, star, fnKey(x.Parent())))
+				}
+			case (pkg == "strings" || pkg == "bytes") && (name == "Equal" || name == "EqualFold" || name == "Compare"):
+				add("whole", fmt.Sprintf("%s.%s with the constant %q", pkg, name, star))
+			case pkg == "strings" || pkg == "bytes":
+				add("partial", fmt.Sprintf("not a whole-label comparison: %s.%s with the constant %q in %s", pkg, name, star, fnKey(x.Parent())))
+			default:
+				add("unknown", fmt.Sprintf("the constant %q is handed to %s.%s", star, pkg, name))
+			}
+			return
+		}
+		for _, a := range x.Call.Args {
+			c01R20CollectTests(a, depth+1, seen, seenFn, via, out)
+		}
+		if sf := x.Call.StaticCallee(); sf != nil && len(sf.Blocks) > 0 && sf.Pkg != nil && sf.Pkg.Pkg != nil &&
+			strings.HasPrefix(sf.Pkg.Pkg.Path(), modPath) && !seenFn[sf] && len(seenFn) < 4 {
+			seenFn[sf] = true
+			for _, b := range sf.Blocks {
+				for _, in := range b.Instrs {
+					switch y := in.(type) {
+					case *ssa.BinOp:
+						if y.Op == token.EQL || y.Op == token.NEQ {
+							c01R20CollectTests(y, depth+1, seen, seenFn, x, out)
+						}
+					case *ssa.Call:
+						c01R20CollectTests(y, depth+1, seen, seenFn, x, out)
+					}
+				}
+			}
+		}
+		return
+	}
+	if in, ok := v.(ssa.Instruction); ok {
+		for _, op := range in.Operands(nil) {
+			if op != nil && *op != nil {
+				c01R20CollectTests(*op, depth+1, seen, seenFn, via, out)
+			}
+		}
+	}
+}
+
+// c01R20SelectingTests: the "*" tests in the branch conditions that select the
+// discount (the same branches c01R20StarSelected accepts).
+func c01R20SelectingTests(via []*ssa.BasicBlock) []c01R20Test {
+	var out []c01R20Test
+	done := map[*ssa.BasicBlock]bool{}
+	for _, vb := range via {
+		if vb == nil || vb.Parent() == nil {
+			continue
+		}
+		for _, b := range vb.Parent().Blocks {
+			if len(b.Instrs) == 0 || done[b] {
+				continue
+			}
+			iff, ok := b.Instrs[len(b.Instrs)-1].(*ssa.If)
+			if !ok || !(b.Dominates(vb) || c01R20InSelectionRegion(b, vb)) {
+				continue
+			}
+			if c01R20MentionsStar(iff.Cond, 0, map[ssa.Value]bool{}, map[*ssa.Function]bool{}) {
+				done[b] = true
+				c01R20CollectTests(iff.Cond, 0, map[ssa.Value]bool{}, map[*ssa.Function]bool{}, nil, &out)
+			}
+		}
+	}
+	return out
+}
+
+func c01R20JudgeTests(c *Ctx, top string, i, n int, s *c01R20Site) {
+	rule := c01R20
+	key := fmt.Sprintf("%s|%s|the * test selecting the discount compares the whole leading label", rule, top)
+	if n > 1 {
+		key += fmt.Sprintf("#%d", i+1)
+	}
+	var whole, partial, unknown []string
+	for _, t := range s.tests {
+		switch t.kind {
+		case "whole":
+			whole = append(whole, t.what)
+		case "partial":
+			partial = append(partial, t.what)
+		default:
+			unknown = append(unknown, t.what)
+		}
+	}
+	switch {
+	case len(whole) > 0:
+		c.ok(rule, key, s.cmp.Pos(), "whole-label test: "+whole[0])
+	case len(partial) > 0:
+		c.violation(rule, key, s.cmp.Pos(), "the leading label is discounted from the owner's label count on a test that does not compare the whole label with \"*\" ("+strings.Join(partial, "; ")+"): only the one-octet label \"*\" is a wildcard label (RFC 4592 §2.1.1, RFC 4034 §3.1.3), so an ordinary name such as *foo.zone. has a label discounted too, a wildcard RRset + RRSIG replayed over it is not recognised as an expansion, and the answer is accepted (AD=1) without the RFC 4035 §5.3.4 next-closer denial")
+	default:
+		c.undecided(rule, key, s.cmp.Pos(), "cannot classify the test of the \"*\" label that selects the discount ("+strings.Join(unknown, "; ")+")")
+	}
 }
